@@ -219,11 +219,21 @@ class World:
         if sig == SIGKILL:
             proc.exit(-9)
         elif sig == SIGTERM:
-            proc.exit(-15)
+            if getattr(proc, "ignore_term", False):
+                s.probe("sigterm-ignored")
+            elif proc.stopped:
+                # only SIGKILL and SIGCONT act on a stopped process; everything else stays pending
+                proc.pending_term = True
+                s.probe("sigterm-pending-on-stopped-process")
+            else:
+                proc.exit(-15)
         elif sig == SIGSTOP:
             proc.stopped = True
         elif sig == SIGCONT:
             proc.stopped = False
+            if getattr(proc, "pending_term", False):
+                proc.pending_term = False
+                proc.exit(-15)
         elif sig == SIGINT:
             mt = proc.main_task
             if mt is not None and mt.state != "done":
